@@ -38,3 +38,26 @@ theorem required_iff_not_optional (xs : List Item) (n : Name) :
 
 #print axioms required_is_filter
 #print axioms required_iff_not_optional
+
+/-
+Literal <-> pattern (cdd/json_schema/utils/emit_utils.py and parse_utils.py):
+
+    emit :   "pattern": "|".join(enum)                 -- enum = the sorted members of the Literal
+    parse:   maybe_enum = _param["pattern"].split("|")  -- then Literal['m1', 'm2', ...]
+
+For a one-character separator Python's `sep.join(ms)` is `[sep].intercalate ms` and `s.split(sep)` is `s.splitOn sep`
+on lists of characters.  Conclusion, for any number of members of any length: the members that come back are the
+members that went in, PROVIDED no member contains the separator and there is at least one member (side conditions of
+checks/C06.py: both sites use the same one-character constant).  Members with the separator in them are a known
+finding of the pinned tree (they do come back split).
+-/
+
+def pyJoin (sep : Char) (ms : List (List Char)) : List Char := [sep].intercalate ms
+def pySplit (sep : Char) (s : List Char) : List (List Char) := s.splitOn sep
+
+theorem pattern_roundtrip (sep : Char) (ms : List (List Char)) (hne : ms ≠ [])
+    (hsep : ∀ m ∈ ms, sep ∉ m) : pySplit sep (pyJoin sep ms) = ms := by
+  unfold pySplit pyJoin
+  exact List.splitOn_intercalate sep hsep hne
+
+#print axioms pattern_roundtrip
